@@ -28,7 +28,7 @@ MON = ['Jan', 'Feb', 'Mar', 'Apr', 'May', 'Jun', 'Jul', 'Aug', 'Sep', 'Oct', 'No
 BAD_NUM = ['abc', ' ', '12V', '1,5', '--3', '0x10', 'one']
 BAD_TIME = ['25:00:00', '12:61:00', '12:00', 'abc', '12:00:00:61', '12:00:00:60', '12:00:00:ab', '12:00:00.xx',
             '1:2:3:4:5', ' ', '12:00:61', '12-00-00', '12:00:00:', ':::', '12:00:00:-5', 'aa:bb:cc',
-            '12:00:00:inf', '12:00:00:1e999', '12:00:00:nan', '12:00:00:-Infinity', '12:00:00.inf', '12:00:inf', 'nan:00:00']
+            '12.5:30:40', '12:30.5:40', '1.5:2:3', '12:00:00:inf', '12:00:00:1e999', '12:00:00:nan', '12:00:00:-Infinity', '12:00:00.inf', '12:00:inf', 'nan:00:00']
 BAD_DATE = ['32-JAN-2020', '01-XXX-2020', '2020/01/01', 'abc', ' ', '01-JAN', '30-FEB-2021', '01-13-2020',
             '2020-01-01', 'JAN-01-2020']
 
@@ -116,7 +116,7 @@ def _case(draw):
     bdword = [draw(st.one_of(st.none(), _num(st.sampled_from([300, 455.5, 700])))) for _ in range(D)]
     cytek = [draw(st.one_of(st.none(), _num(st.sampled_from([1, 4, 8.5])))) for _ in range(D)]
     return dict(version=draw(st.sampled_from(['FCS2.0', 'FCS3.0', 'FCS3.1'])), datatype=dt, names=names, events=events,
-                ranges=[draw(st.sampled_from([1024, 2048, 4096, 262144])) for _ in range(D)], pne=pne,
+                ranges=[draw(st.sampled_from([1024, 2048, 4096, 262144] + ([4294967296, 33554432] if dt != 'I' else []))) for _ in range(D)], pne=pne,
                 timestep=draw(st.one_of(st.none(), st.none(), _num(st.sampled_from([0.01, 0.1, 1, 0.5, 0.001, 0, 0.0])))),
                 timeticks=draw(st.one_of(st.none(), st.none(), _num(st.sampled_from([100, 200, 1000, 50.5, 0])))),
                 btim=draw(_time()), etim=draw(_time()), date=draw(_date()), volt=volt, gain=gain, labels=labels,
